@@ -42,6 +42,8 @@ type TeardownCase struct {
 	// HeaderPauseUS: the client link deschedules a writer for this long after every short write (frame header)
 	HeaderPauseUS int  `json:"header_pause_us,omitempty"`
 	RealWS        bool `json:"real_ws,omitempty"`
+	// MuteClose: the real websocket upstream never answers close frames (only the end of the TCP connection ends it)
+	MuteClose bool `json:"mute_close,omitempty"`
 }
 
 func teardownWorld() *world.World {
@@ -163,6 +165,7 @@ func checkC18(c *TeardownCase) (*ev.Failure, map[string]bool) {
 	var wsSrv *subx.WSServer
 	if c.RealWS {
 		wsSrv = subx.NewWSServer(nil)
+		wsSrv.MuteClose = c.MuteClose
 		defer wsSrv.Close()
 		for i := range w.Services {
 			w.Services[i].URL = fmt.Sprintf("%s/svc%d", wsSrv.Server.URL, i)
@@ -441,6 +444,7 @@ var c18Points = []string{"se.Close.enter", "se.Close.afterTryLock", "se.Close.af
 
 func genTeardownCase(t *rapid.T) *TeardownCase {
 	c := &TeardownCase{NSubs: rapid.IntRange(1, 3).Draw(t, "nsubs"), RealWS: rapid.IntRange(0, 3).Draw(t, "realws") == 0}
+	c.MuteClose = c.RealWS && rapid.Bool().Draw(t, "muteclose")
 	c.Steps = append(c.Steps, TStep{Actor: "client", Kind: "init", Wait: true})
 	n := rapid.IntRange(2, 10).Draw(t, "nsteps")
 	racy := rapid.IntRange(0, 2).Draw(t, "racy") > 0
